@@ -282,22 +282,29 @@ def main():
 
     # replay symbolic counterexamples natively
     vio_lines = []
-    seen_clause = set()
+    # one VIOLATION line per failed clause; up to 3 counter-models of a clause are replayed
+    # natively (a broken loop body can fail thousands of per-path obligations), the line names
+    # the first one that reproduced
+    by_clause = {}
     for full, path, o in violations:
-        suffix = ""
-        if not o.get("native"):
-            if o.get("verdict") == "sat" and o.get("model_args") is not None:
+        by_clause.setdefault(clause_of(full), []).append((full, path, o))
+    for key, items in by_clause.items():
+        chosen = None
+        tried = 0
+        for full, path, o in items:
+            if o.get("native"):
+                chosen = (path, "")
+                break
+            if o.get("verdict") == "sat" and o.get("model_args") is not None and tried < 3:
+                tried += 1
                 rc, out = run_replay(path, repo)
                 append_replay_output(path, rc, out)
-                if rc != 1:
-                    suffix = " no-failing-input-found"
-            else:
-                suffix = " no-failing-input-found"
-        key = clause_of(full)
-        if key in seen_clause:
-            continue
-        seen_clause.add(key)
-        vio_lines.append(f"VIOLATION property={prop} replay={path}{suffix}")
+                if rc == 1:
+                    chosen = (path, "")
+                    break
+        if chosen is None:
+            chosen = (items[0][1], " no-failing-input-found")
+        vio_lines.append(f"VIOLATION property={prop} replay={chosen[0]}{chosen[1]}")
 
     for ln in vio_lines:
         print(ln)
